@@ -20,6 +20,9 @@ def promoted_equal(out_cell, out_kind, in_cell, in_kind):
         return cell_ident(out_cell, in_cell, "T")
     if out_kind == "f" and in_kind == "i":
         return out_cell == symx.fp_of_bv(in_cell)
+    if out_kind == "us" and in_kind == "D":
+        # a date in a datetime column: midnight of that day (NaT stays NaT); years 1..9999 do not overflow
+        return out_cell == z3.If(in_cell == symx.INT64_MIN, BV(symx.INT64_MIN), in_cell * BV(86400 * 10**6))
     if out_kind == "f" and in_kind == "b":
         return out_cell == z3.If(in_cell, symx.fpval(1.0), symx.fpval(0.0))
     if out_kind == "i" and in_kind == "b":
@@ -68,7 +71,7 @@ class Reshape(Harness):
         data = frame_of(ctx, "s", names, kinds, n)
         inp = {"data": data, "method": m}
         if m == "rbind":
-            k = choice("n_others", [1, 2]) if self.variant not in ("one", "mixedstr") else 1
+            k = choice("n_others", [1, 2]) if self.variant not in ("one", "mixedstr", "mixeddt") else 2 if self.variant == "mixeddt" else 1
             others = []
             for j in range(k):
                 on = list(choice(f"ocols{j}", [("a",), ("b", "a"), ("c",), ("b", "c"), ("a", "b", "c")]))
@@ -77,6 +80,9 @@ class Reshape(Harness):
                 if self.variant == "mixedstr":
                     # the same column as a fixed-width <U array in one frame and a variable-width string in another
                     okinds = {k: {"U": "T", "T": "U"}.get(v, v) for k, v in kinds.items()}
+                if self.variant == "mixeddt" and j == 1:
+                    # the same column with a wider dtype in a later frame: dates then datetimes, integers then floats
+                    okinds = {k: {"D": "us", "i": "f"}.get(v, v) for k, v in kinds.items()}
                 others.append(frame_of(ctx, f"o{j}", on, okinds, nn))
             inp["others"] = others
         elif m in ("cbind", "update"):
@@ -153,6 +159,8 @@ class Reshape(Harness):
                 wantk = NA_KIND[ik] if absent else ik
                 kk = {kind_of(f.cols[nm]) for f in frames if nm in f.cols}
                 if kk == {"T", "U"}: wantk = "T"          # fixed-width and variable-width strings together: variable width
+                if kk == {"D", "us"}: wantk = "us"        # dates and datetimes together: datetimes
+                if kk == {"i", "f"}: wantk = "f"
                 # a 0-row operand still takes part in NumPy's dtype promotion
                 cl.append((f"{nm}: result dtype able to hold the values{' and missing values' if absent else ''}",
                            T(oc.dtype == KIND_DTYPE[wantk])))
@@ -241,11 +249,13 @@ def harnesses(tier):
         hs.append(Reshape("rbind", ["b", "f", "i"], 1, "one"))
         hs.append(Reshape("rbind", ["td", "us", "T"], 1, "one"))
         hs.append(Reshape("rbind", ["U", "f", "T"], 1, "mixedstr"))
+        hs.append(Reshape("rbind", ["D", "i", "T"], 1, "mixeddt"))
         hs.append(Reshape("update", ["td", "f", "i"], 2))
     else:
         for kinds in (["f", "i", "T"], ["b", "D", "U"], ["i", "O", "us"], ["td", "f", "T"]):
             for m in ("rbind", "cbind", "update", "modify", "select", "unselect", "rename", "colnames"):
                 hs.append(Reshape(m, kinds, 2))
         hs.append(Reshape("rbind", ["f", "i", "b"], 3, "one"))
+        hs.append(Reshape("rbind", ["D", "i", "T"], 2, "mixeddt"))
         hs.append(Reshape("rbind", ["U", "f", "T"], 2, "mixedstr")); hs.append(Reshape("rbind", ["T", "U", "i"], 2, "mixedstr"))
     return hs
